@@ -111,6 +111,21 @@ def template_functions(gen):
 
 
 def run_variant(template_path, repo_root, workdir, rlimit=60, extra_args=None, mutate=None, threads=8, variant='main'):
+    """one Verus run of one variant; if the only trouble is a solver resource limit, the run is repeated once with a
+    larger budget (more solver effort can only turn 'undecided' into 'verified' or into a definite error)"""
+    res = _run_variant_once(template_path, repo_root, workdir, rlimit, extra_args, mutate, threads, variant)
+    factor = int(os.environ.get('VERIF_RLIMIT_RETRY_FACTOR', '6'))
+    if res.status == 'inconclusive' and res.resource_fns and factor > 1 and not [e for e in res.errors if not e.get('resource')]:
+        m_rl = re.search(r'^//@ rlimit (\d+)', open(template_path).read(), re.M)
+        base = max(rlimit, int(m_rl.group(1))) if m_rl else rlimit
+        res2 = _run_variant_once(template_path, repo_root, workdir, base * factor, extra_args, mutate, threads, variant)
+        res2.retried = 'solver resource limit at rlimit %d in %s; repeated with rlimit %d' % (base, ', '.join(res.resource_fns), base * factor)
+        res2.wall_s += res.wall_s
+        return res2
+    return res
+
+
+def _run_variant_once(template_path, repo_root, workdir, rlimit=60, extra_args=None, mutate=None, threads=8, variant='main'):
     unit = os.path.splitext(os.path.basename(template_path))[0]
     res = UnitResult(unit)
     res.variant = variant
@@ -269,7 +284,7 @@ def run_unit(template_path, repo_root, workdir, rlimit=60, extra_args=None, muta
         parts = [f.result() for f in futs]
     main = parts[0]
     main.variants = {p.variant: {'status': p.status, 'reason': p.reason, 'wall_s': round(p.wall_s, 2), 'cmd': p.cmd,
-                                 'functions': {k: v['success'] for k, v in p.functions.items()}} for p in parts}
+                                 'functions': {k: v['success'] for k, v in p.functions.items()}, 'retried': getattr(p, 'retried', None)} for p in parts}
     main.cmd = ' ; '.join(p.cmd for p in parts if p.cmd)
     for p in parts[1:]:
         if p.status != 'inconclusive' and not p.functions:
